@@ -13,6 +13,7 @@ import types
 import warnings
 
 from harness.lib import boot
+from harness.lib.coqrun import RUN_ROOT
 from harness.lib.coqrun import zlit, blit, listlit, strlit, run_mismatch_cases, eval_files, parse_eval_blocks
 from harness.lib.ctx import guarded
 
@@ -1486,7 +1487,7 @@ def stage_history_none(ctx, st):
 
 
 VERIF_DIR = os.path.dirname(os.path.dirname(os.path.dirname(os.path.abspath(__file__))))
-HIST_DIR = os.path.join(VERIF_DIR, "build", "run", "C15h")
+HIST_DIR = os.path.join(RUN_ROOT, "C15h")
 
 
 def order_items(ctx, st, names):
